@@ -477,6 +477,17 @@ struct Client {
           }
         }
       }
+      if (algebra) {
+        // pressure while the guards of this thread are still alive: every published object is replaced (and thereby
+        // retired) and the reclaimer is driven through many retire/scan/epoch rounds; an object some guard of
+        // this thread still refers to must survive all of it (the registry reports destroyed_while_guarded)
+        for (int c = 0; c < ncells; ++c) publish(c, false, 0);
+        for (int i = 0; i < 12; ++i) {
+          RG rg;
+          publish(i % ncells, i % 3 == 0, i & 1);
+        }
+        check_models(g, gm, "pressure");
+      }
       // protocol: guards and regions are released on their thread before it exits
       {
         OpScope os;
@@ -495,7 +506,9 @@ struct Client {
     static const uint32_t w_c01[OP_NKINDS] = {40, 22, 8, 18, 6, 6, 16, 4, 3, 2, 6, 2, 2, 3, 3, 1, 2};
     static const uint32_t w_c02[OP_NKINDS] = {35, 34, 12, 10, 3, 3, 6, 2, 2, 1, 5, 1, 1, 3, 3, 1, 1};
     static const uint32_t w_pre[2] = {1, 1};
-    const uint32_t* w = (vh::prop_is("C02") || vh::prop_is("C17")) ? w_c02 : w_c01;
+    // single-threaded algebra cases (C15): guard-to-guard operations and marked null pointers are frequent
+    static const uint32_t w_alg[OP_NKINDS] = {16, 14, 10, 16, 8, 6, 8, 8, 8, 6, 8, 8, 3, 3, 3, 3, 8};
+    const uint32_t* w = algebra ? w_alg : (vh::prop_is("C02") || vh::prop_is("C17")) ? w_c02 : w_c01;
     int n = is_main_prefix ? 2 : MAXOPS; // fixed shape: absent operations are NOPs, so zeroing a choice removes one
     nops[p] = n;
     int depth = 0;
